@@ -1,20 +1,582 @@
-//! PROBE (temporary): can push_refs / GitFetch work with the installed git?
-use std::collections::HashMap;
+//! C45 — pushing never overwrites remote changes jj has not seen.
+//!
+//! Explicit-state search (vcommon::bfs) over histories of
+//!   * `local:<name>=<c1|c2|c3|->`   jj moves / creates / deletes a local bookmark,
+//!   * `remote:<name>=<c1..c4|->`    *another clone* moves / creates / deletes the branch in
+//!     the bare remote (the harness writes the ref into the bare repository with gix),
+//!   * `fetch`                       `GitFetch::fetch` + `GitFetch::import_refs` (all bookmarks
+//!     of origin, auto-tracking),
+//!   * `push:<name>` / `push:all`    `jj_lib::git::push_refs` with exactly the
+//!     `GitPushRefTargets` the CLI builds: for every selected bookmark whose
+//!     `classify_ref_push_action` is `Update(expected -> new)`.
+//! The jj repository (Git backend) and the bare remote are real repositories on tmpfs; push
+//! and fetch go through the real `git` subprocess (`git push --porcelain --force-with-lease=..`),
+//! so the remote's compare-and-swap is git's own.
+//!
+//! Sandbox note: the installed git is 2.39.5.  `git push --porcelain` exists there, so the push
+//! path runs unmodified.  `git fetch --porcelain` needs git >= 2.41; jj only reads the
+//! *rejected* entries of that output, so for `fetch` the harness points
+//! `GitSubprocessOptions::executable_path` at a small shell shim that drops the
+//! `--porcelain` word, discards stdout and execs the real git.  Everything else of the fetch
+//! (refspec expansion, pruning, import of the fetched refs) is jj's code.
+//!
+//! Oracle.  A ghost value G(name) is the position of the remote branch that jj last saw or
+//! set: it becomes the remote's actual position at every fetch and the pushed position at every
+//! push that took effect.  It is maintained by the harness from the remote's actual refs, not
+//! from jj's view.  For a push of a set S of bookmarks (pre-state: remote actual A, jj's record
+//! R = `name@origin`, local L; the CLI's update is R -> N):
+//!   P0  no local bookmark changes
+//!   P1  A != G  =>  the remote branch is unchanged afterwards            (never overwritten)
+//!   P2  A != G and A != N  =>  the ref is not reported as pushed and jj's record (the
+//!       remote bookmark in the view, the recorded git ref and the actual
+//!       refs/remotes/origin/<name>) is unchanged
+//!       (A != G and A == N, "already there": jj's test-suite documents that this may be
+//!       reported as pushed; then the record must become N; or it is rejected as above)
+//!   P3  reported as pushed  =>  the remote is at N and jj's record is N;
+//!       not reported as pushed  =>  remote and record unchanged
+//!   P4  every ref of S has A == G  =>  the push succeeds for all of them
+//!   P5  bookmarks outside S: remote, record unchanged
+//! and for every other action: the bare remote changes only by `remote:` actions and pushes;
+//! after a fetch jj's record equals the remote's actual position.
 
+use std::collections::BTreeMap;
+use std::collections::HashMap;
+use std::collections::HashSet;
+use std::path::Path;
+use std::path::PathBuf;
+use std::sync::Arc;
+use std::sync::Mutex;
+use std::sync::OnceLock;
+use std::sync::atomic::AtomicU64;
+use std::sync::atomic::Ordering;
+
+use jj_lib::backend::CommitId;
+use jj_lib::backend::MillisSinceEpoch;
+use jj_lib::backend::Signature;
+use jj_lib::backend::Timestamp;
+use jj_lib::config::ConfigLayer;
+use jj_lib::config::ConfigSource;
+use jj_lib::config::StackedConfig;
 use jj_lib::git;
 use jj_lib::git::GitFetch;
+use jj_lib::git::GitFetchRefExpression;
 use jj_lib::git::GitImportOptions;
 use jj_lib::git::GitPushOptions;
 use jj_lib::git::GitPushRefTargets;
-use jj_lib::git::GitSubprocessOptions;
 use jj_lib::git::GitSubprocessCallback;
+use jj_lib::git::GitSubprocessOptions;
+use jj_lib::git_backend::GitBackend;
 use jj_lib::merge::Diff;
+use jj_lib::object_id::ObjectId as _;
+use jj_lib::op_store::RefTarget;
+use jj_lib::ref_name::GitRefName;
+use jj_lib::ref_name::RefName;
+use jj_lib::ref_name::RefNameBuf;
+use jj_lib::ref_name::RemoteName;
+use jj_lib::ref_name::RemoteRefSymbol;
+use jj_lib::refs::LocalAndRemoteRef;
+use jj_lib::refs::RefPushAction;
+use jj_lib::refs::classify_ref_push_action;
+use jj_lib::repo::ReadonlyRepo;
 use jj_lib::repo::Repo as _;
+use jj_lib::repo::RepoLoader;
+use jj_lib::settings::UserSettings;
+use jj_lib::signing::Signer;
+use jj_lib::str_util::StringExpression;
+use jj_lib::str_util::StringMatcher;
 use pollster::FutureExt as _;
-use testutils::TestRepo;
-use testutils::TestRepoBackend;
+use serde_json::Value;
+use serde_json::json;
+use vcommon::Counter;
+use vcommon::Coverage;
 use vcommon::Ctx;
 use vcommon::Level;
+use vcommon::bfs;
+use vcommon::machinery_failure;
+
+// ---------------------------------------------------------------------------------------
+// Alphabet
+// ---------------------------------------------------------------------------------------
+
+const NAMES: [&str; 2] = ["a", "b"];
+/// 0 = absent, 1 = c1, 2 = c2 (child of c1), 3 = c3 (child of root), all written by jj;
+/// 4 = c4 (child of c1), written by the other clone into the remote
+type Cm = u8;
+const LOCAL_TARGETS: [Cm; 4] = [1, 2, 3, 0];
+const REMOTE_TARGETS: [Cm; 5] = [1, 2, 3, 4, 0];
+const ALL: usize = usize::MAX;
+
+#[derive(Clone, Debug, PartialEq, Eq)]
+enum Act {
+    Local(usize, Cm),
+    Remote(usize, Cm),
+    Fetch,
+    /// push one bookmark, or (ALL) every bookmark that needs an update
+    Push(usize),
+}
+
+fn cm_str(c: Cm) -> String {
+    if c == 0 { "-".to_string() } else { format!("c{c}") }
+}
+
+fn parse_cm(s: &str) -> Option<Cm> {
+    match s {
+        "-" => Some(0),
+        "c1" => Some(1),
+        "c2" => Some(2),
+        "c3" => Some(3),
+        "c4" => Some(4),
+        _ => None,
+    }
+}
+
+impl Act {
+    fn render(&self) -> String {
+        match self {
+            Act::Local(n, c) => format!("local:{}={}", NAMES[*n], cm_str(*c)),
+            Act::Remote(n, c) => format!("remote:{}={}", NAMES[*n], cm_str(*c)),
+            Act::Fetch => "fetch".to_string(),
+            Act::Push(ALL) => "push:all".to_string(),
+            Act::Push(n) => format!("push:{}", NAMES[*n]),
+        }
+    }
+    fn parse(s: &str) -> Option<Act> {
+        if s == "fetch" {
+            return Some(Act::Fetch);
+        }
+        let (kind, rest) = s.split_once(':')?;
+        if kind == "push" {
+            if rest == "all" {
+                return Some(Act::Push(ALL));
+            }
+            return Some(Act::Push(NAMES.iter().position(|x| *x == rest)?));
+        }
+        let (name, c) = rest.split_once('=')?;
+        let n = NAMES.iter().position(|x| *x == name)?;
+        let c = parse_cm(c)?;
+        match kind {
+            "local" if c <= 3 => Some(Act::Local(n, c)),
+            "remote" => Some(Act::Remote(n, c)),
+            _ => None,
+        }
+    }
+    fn label(&self) -> String {
+        match self {
+            Act::Local(_, 0) => "local-delete",
+            Act::Local(..) => "local-set",
+            Act::Remote(_, 0) => "remote-delete",
+            Act::Remote(..) => "remote-set",
+            Act::Fetch => "fetch",
+            Act::Push(ALL) => "push-all",
+            Act::Push(_) => "push-one",
+        }
+        .to_string()
+    }
+    fn touches_second_name(&self) -> bool {
+        matches!(self, Act::Local(1, _) | Act::Remote(1, _) | Act::Push(1) | Act::Push(ALL))
+    }
+}
+
+fn history_json(h: &[Act]) -> Value {
+    json!({ "history": h.iter().map(|a| a.render()).collect::<Vec<_>>() })
+}
+
+type Terms = Vec<Option<Cm>>;
+
+fn terms_str(t: &[Option<Cm>]) -> String {
+    let mut s = String::new();
+    for (i, v) in t.iter().enumerate() {
+        if i > 0 {
+            s.push(if i % 2 == 0 { '+' } else { '-' });
+        }
+        s.push_str(&match v {
+            None => "-".to_string(),
+            Some(c) => format!("c{c}"),
+        });
+    }
+    if t.len() > 1 { format!("[{s}]") } else { s }
+}
+
+fn opt(c: Cm) -> Option<Cm> {
+    (c != 0).then_some(c)
+}
+
+// ---------------------------------------------------------------------------------------
+// The world: a jj repository (Git backend) and a bare remote, copied from a template
+// ---------------------------------------------------------------------------------------
+
+#[derive(Clone, Debug, PartialEq, Eq)]
+struct NameObs {
+    /// local bookmark
+    l: Terms,
+    /// jj's record: `<name>@origin` in the view (target, tracked flag)
+    r: Terms,
+    r_tracked: bool,
+    /// jj's recorded git ref refs/remotes/origin/<name> (view.git_refs)
+    k: Terms,
+    /// the actual refs/remotes/origin/<name> in jj's backing Git repository
+    t: Option<Cm>,
+    /// the actual refs/heads/<name> in the bare remote
+    a: Option<Cm>,
+}
+
+#[derive(Clone, Debug, PartialEq, Eq)]
+struct Obs {
+    names: Vec<NameObs>,
+    visible: u8,
+    known: u8,
+}
+
+struct Template {
+    dir: PathBuf,
+    ids: Vec<CommitId>,
+    shim: PathBuf,
+}
+
+static TEMPLATE: OnceLock<Template> = OnceLock::new();
+static WORLD_SEQ: AtomicU64 = AtomicU64::new(0);
+
+struct World {
+    dir: PathBuf,
+    settings: UserSettings,
+    repo: Arc<ReadonlyRepo>,
+    ids: Vec<CommitId>,
+    shim: PathBuf,
+    ghost: Vec<Option<Cm>>,
+    /// the directory outlives this value (it became a snapshot)
+    keep: bool,
+}
+
+fn sig(secs: i64) -> Signature {
+    Signature {
+        name: "Test User".to_string(),
+        email: "test.user@example.com".to_string(),
+        timestamp: Timestamp { timestamp: MillisSinceEpoch(secs * 1000), tz_offset: 0 },
+    }
+}
+
+fn settings(seed: u64) -> UserSettings {
+    static CACHE: Mutex<Option<StackedConfig>> = Mutex::new(None);
+    let mut config = CACHE
+        .lock()
+        .unwrap()
+        .get_or_insert_with(|| {
+            let mut config = testutils::base_user_config();
+            config.add_layer(
+                ConfigLayer::parse(
+                    ConfigSource::User,
+                    "debug.commit-timestamp = \"2001-02-03T04:05:06+00:00\"\n\
+                     debug.operation-timestamp = \"2001-02-03T04:05:07+00:00\"\n",
+                )
+                .unwrap(),
+            );
+            config
+        })
+        .clone();
+    config.add_layer(
+        ConfigLayer::parse(ConfigSource::User, &format!("debug.randomness-seed = {seed}\n")).unwrap(),
+    );
+    UserSettings::from_config(config).unwrap_or_else(|e| machinery_failure(&format!("settings: {e}")))
+}
+
+fn import_options() -> GitImportOptions {
+    let origin: &RemoteName = "origin".as_ref();
+    GitImportOptions {
+        abandon_unreachable_commits: true,
+        record_synthetic_predecessors: true,
+        // every fetched bookmark of origin is tracked (merged into the local bookmark)
+        remote_auto_track_bookmarks: HashMap::from([(origin.to_owned(), StringMatcher::all())]),
+    }
+}
+
+fn jj_git_dir(dir: &Path) -> PathBuf {
+    dir.join("jj").join("store").join("git")
+}
+
+fn remote_dir(dir: &Path) -> PathBuf {
+    dir.join("remote.git")
+}
+
+fn oid(id: &CommitId) -> gix::ObjectId {
+    gix::ObjectId::from_bytes_or_panic(id.as_bytes())
+}
+
+fn build_template(scratch: &Path) -> Template {
+    let dir = scratch.join("template");
+    let jj_dir = dir.join("jj");
+    std::fs::create_dir_all(&jj_dir).unwrap_or_else(|e| machinery_failure(&format!("mkdir: {e}")));
+    let settings = settings(42);
+    let _remote = testutils::git::init_bare(remote_dir(&dir));
+    let repo = ReadonlyRepo::init(
+        &settings,
+        &jj_dir,
+        &|settings, store_path| {
+            Ok(Box::new(GitBackend::init_internal(settings, store_path, gix::hash::Kind::Sha1)?))
+        },
+        Signer::from_settings(&settings).unwrap_or_else(|e| machinery_failure(&format!("signer: {e}"))),
+        ReadonlyRepo::default_op_store_initializer(),
+        ReadonlyRepo::default_op_heads_store_initializer(),
+        ReadonlyRepo::default_index_store_initializer(),
+        ReadonlyRepo::default_submodule_store_initializer(),
+    )
+    .block_on()
+    .unwrap_or_else(|e| machinery_failure(&format!("repo init: {e}")));
+    let mut tx = repo.start_transaction();
+    git::add_remote(tx.repo_mut(), "origin".as_ref(), remote_dir(&dir).to_str().unwrap(), None)
+        .unwrap_or_else(|e| machinery_failure(&format!("add_remote: {e}")));
+    let mr = tx.repo_mut();
+    let root = mr.store().root_commit_id().clone();
+    let tree = mr.store().empty_merged_tree();
+    let mk = |mr: &mut jj_lib::repo::MutableRepo, parent: &CommitId, n: i64| {
+        mr.new_commit(vec![parent.clone()], tree.clone())
+            .set_description(format!("c{n}"))
+            .set_author(sig(1000 + n))
+            .set_committer(sig(1000 + n))
+            .write()
+            .block_on()
+            .unwrap_or_else(|e| machinery_failure(&format!("write commit: {e}")))
+    };
+    let c1 = mk(mr, &root, 1);
+    let c2 = mk(mr, c1.id(), 2);
+    let c3 = mk(mr, &root, 3);
+    tx.commit("setup").block_on().unwrap_or_else(|e| machinery_failure(&format!("setup commit: {e}")));
+    // environment: no automatic gc after receive/fetch (one process less per push)
+    for (cfg, text) in [
+        (remote_dir(&dir).join("config"), "[gc]\n\tauto = 0\n[receive]\n\tautogc = false\n"),
+        (jj_git_dir(&dir).join("config"), "[gc]\n\tauto = 0\n"),
+    ] {
+        let mut body = std::fs::read_to_string(&cfg).unwrap_or_else(|e| machinery_failure(&format!("git config: {e}")));
+        body.push_str(text);
+        std::fs::write(&cfg, body).unwrap_or_else(|e| machinery_failure(&format!("git config: {e}")));
+    }
+    // the remote has the objects of c1..c3 (somebody pushed them earlier): plain git, side refs
+    let out = std::process::Command::new("git")
+        .arg("--git-dir")
+        .arg(jj_git_dir(&dir))
+        .args(["push", "-q"])
+        .arg(remote_dir(&dir))
+        .arg(format!("{}:refs/keep/c2", c2.id().hex()))
+        .arg(format!("{}:refs/keep/c3", c3.id().hex()))
+        .output()
+        .unwrap_or_else(|e| machinery_failure(&format!("cannot run git: {e}")));
+    if !out.status.success() {
+        machinery_failure(&format!("setup push failed: {}", String::from_utf8_lossy(&out.stderr)));
+    }
+    // c4: written by the other clone straight into the remote (child of c1), unreferenced
+    let g = testutils::git::open(remote_dir(&dir));
+    let empty_tree = g.empty_tree().id().detach();
+    let c4_oid =
+        testutils::git::write_commit(&g, "refs/verif-tmp/c4", empty_tree, "c4 (other clone)", &[oid(c1.id())]);
+    g.find_reference("refs/verif-tmp/c4")
+        .unwrap_or_else(|e| machinery_failure(&format!("tmp ref: {e}")))
+        .delete()
+        .unwrap_or_else(|e| machinery_failure(&format!("tmp ref delete: {e}")));
+    // git < 2.41 has no `fetch --porcelain`; jj only reads rejected entries from that output
+    let shim = scratch.join("git-fetch-shim.sh");
+    std::fs::write(
+        &shim,
+        "#!/bin/sh\n# drops --porcelain (git < 2.41), silences stdout, runs the real git\n\
+         n=$#\ni=0\nwhile [ $i -lt $n ]; do\n  a=$1; shift\n  [ \"$a\" = \"--porcelain\" ] || set -- \"$@\" \"$a\"\n  \
+         i=$((i+1))\ndone\nexec git \"$@\" >/dev/null\n",
+    )
+    .unwrap_or_else(|e| machinery_failure(&format!("shim: {e}")));
+    {
+        use std::os::unix::fs::PermissionsExt as _;
+        std::fs::set_permissions(&shim, std::fs::Permissions::from_mode(0o755))
+            .unwrap_or_else(|e| machinery_failure(&format!("chmod shim: {e}")));
+    }
+    let ids = vec![
+        root,
+        c1.id().clone(),
+        c2.id().clone(),
+        c3.id().clone(),
+        CommitId::from_bytes(c4_oid.as_bytes()),
+    ];
+    Template { dir, ids, shim }
+}
+
+fn copy_dir(src: &Path, dst: &Path) {
+    std::fs::create_dir_all(dst).unwrap_or_else(|e| machinery_failure(&format!("mkdir {dst:?}: {e}")));
+    let entries = std::fs::read_dir(src).unwrap_or_else(|e| machinery_failure(&format!("readdir {src:?}: {e}")));
+    for e in entries {
+        let e = e.unwrap_or_else(|e| machinery_failure(&format!("readdir: {e}")));
+        let ft = e.file_type().unwrap_or_else(|e| machinery_failure(&format!("file type: {e}")));
+        let to = dst.join(e.file_name());
+        if ft.is_dir() {
+            copy_dir(&e.path(), &to);
+        } else if ft.is_file() {
+            std::fs::copy(e.path(), &to).unwrap_or_else(|e| machinery_failure(&format!("copy: {e}")));
+        } else {
+            machinery_failure(&format!("unexpected file type in the template: {:?}", e.path()));
+        }
+    }
+}
+
+impl World {
+    fn new(scratch: &Path) -> World {
+        let t = TEMPLATE.get_or_init(|| build_template(scratch));
+        World::from_copy(&t.dir, scratch)
+    }
+
+    /// A world whose two repositories are a byte copy of `src` (the template or the kept
+    /// directory of an earlier world), loaded through `RepoLoader`.
+    fn from_copy(src: &Path, scratch: &Path) -> World {
+        let t = TEMPLATE.get_or_init(|| build_template(scratch));
+        let dir = scratch.join(format!("w{}", WORLD_SEQ.fetch_add(1, Ordering::Relaxed)));
+        copy_dir(src, &dir);
+        // the remote URL is an absolute path: point the copy at its own remote
+        let cfg_path = jj_git_dir(&dir).join("config");
+        let cfg = std::fs::read_to_string(&cfg_path).unwrap_or_else(|e| machinery_failure(&format!("git config: {e}")));
+        let from = src.to_str().unwrap();
+        if !cfg.contains(from) {
+            machinery_failure("copied git config does not mention the source remote path");
+        }
+        std::fs::write(&cfg_path, cfg.replace(from, dir.to_str().unwrap()))
+            .unwrap_or_else(|e| machinery_failure(&format!("git config: {e}")));
+        let settings = settings(43);
+        let repo = RepoLoader::init_from_file_system(
+            &settings,
+            &dir.join("jj"),
+            &jj_lib::default_backend_factories::default_backend_factories(),
+        )
+        .unwrap_or_else(|e| machinery_failure(&format!("load copied repo: {e}")))
+        .load_at_head()
+        .block_on()
+        .unwrap_or_else(|e| machinery_failure(&format!("load copied repo at head: {e}")));
+        World {
+            dir,
+            settings,
+            repo,
+            ids: t.ids.clone(),
+            shim: t.shim.clone(),
+            ghost: vec![None; NAMES.len()],
+            keep: false,
+        }
+    }
+
+    fn label_of(&self, id: &CommitId) -> Cm {
+        match self.ids.iter().skip(1).position(|x| x == id) {
+            Some(i) => (i + 1) as Cm,
+            None => 99,
+        }
+    }
+
+    fn terms_of(&self, t: &RefTarget) -> Terms {
+        t.as_merge().iter().map(|v| v.as_ref().map(|id| self.label_of(id))).collect()
+    }
+
+    fn git_ref(&self, g: &gix::Repository, full: &str) -> Option<Cm> {
+        let r = g
+            .try_find_reference(full)
+            .unwrap_or_else(|e| machinery_failure(&format!("find ref: {e}")))?;
+        match r.target().try_id() {
+            Some(id) => Some(self.label_of(&CommitId::from_bytes(id.as_bytes()))),
+            None => Some(98),
+        }
+    }
+
+    fn observe(&self) -> Obs {
+        let remote = testutils::git::open(remote_dir(&self.dir));
+        let mine = testutils::git::open(jj_git_dir(&self.dir));
+        let view = self.repo.view();
+        let mut names = vec![];
+        for n in NAMES {
+            let name: &RefName = n.as_ref();
+            let rr = view.get_remote_bookmark(RemoteRefSymbol { name, remote: "origin".as_ref() });
+            let tracking = format!("refs/remotes/origin/{n}");
+            names.push(NameObs {
+                l: self.terms_of(view.get_local_bookmark(name)),
+                r: self.terms_of(&rr.target),
+                r_tracked: rr.is_tracked(),
+                k: self.terms_of(view.get_git_ref(GitRefName::new(&tracking))),
+                t: self.git_ref(&mine, &tracking),
+                a: self.git_ref(&remote, &format!("refs/heads/{n}")),
+            });
+        }
+        let index = self.repo.index();
+        let heads: Vec<CommitId> = view.heads().iter().cloned().collect();
+        let mut visible = 0u8;
+        let mut known = 0u8;
+        for c in 1..=4usize {
+            let id = &self.ids[c];
+            let has = index.has_id(id).block_on().unwrap_or_else(|e| machinery_failure(&format!("index: {e}")));
+            if !has {
+                continue;
+            }
+            known |= 1 << c;
+            for h in &heads {
+                if index.is_ancestor(id, h).block_on().unwrap_or_else(|e| machinery_failure(&format!("index: {e}"))) {
+                    visible |= 1 << c;
+                    break;
+                }
+            }
+        }
+        Obs { names, visible, known }
+    }
+
+    /// What `jj git push` would send for this bookmark (None: nothing to push / refused).
+    fn push_update(&self, n: usize) -> Option<Diff<Option<CommitId>>> {
+        let view = self.repo.view();
+        let name: &RefName = NAMES[n].as_ref();
+        let targets = LocalAndRemoteRef {
+            local_target: view.get_local_bookmark(name),
+            remote_ref: view.get_remote_bookmark(RemoteRefSymbol { name, remote: "origin".as_ref() }),
+        };
+        match classify_ref_push_action(targets) {
+            RefPushAction::Update(d) => Some(d),
+            _ => None,
+        }
+    }
+}
+
+impl Drop for World {
+    fn drop(&mut self) {
+        if !self.keep {
+            let _ = std::fs::remove_dir_all(&self.dir);
+        }
+    }
+}
+
+/// The two repositories as they were after a history, kept on disk so that the histories that
+/// extend it by one action start from a copy instead of re-running every push and fetch (one
+/// `git push` is ~8 processes; under the sandbox's load that is seconds).  `--replay` and the
+/// start-up gate always rebuild from the template and re-run everything.
+struct Snap {
+    dir: PathBuf,
+    ghost: Vec<Option<Cm>>,
+    fetched_since_push: bool,
+    obs: Obs,
+    len: usize,
+}
+
+impl Drop for Snap {
+    fn drop(&mut self) {
+        let _ = std::fs::remove_dir_all(&self.dir);
+    }
+}
+
+#[derive(Default)]
+struct Snaps(Mutex<HashMap<String, Arc<Snap>>>);
+
+fn hist_id(h: &[Act]) -> String {
+    h.iter().map(|a| a.render()).collect::<Vec<_>>().join(" ")
+}
+
+impl Snaps {
+    fn get(&self, h: &[Act]) -> Option<Arc<Snap>> {
+        self.0.lock().unwrap().get(&hist_id(h)).cloned()
+    }
+    fn insert(&self, h: &[Act], snap: Snap) {
+        let mut m = self.0.lock().unwrap();
+        // levels are explored one after the other: grand-parents are no longer needed
+        let len = snap.len;
+        m.retain(|_, s| s.len + 2 > len);
+        m.insert(hist_id(h), Arc::new(snap));
+    }
+    fn clear(&self) {
+        self.0.lock().unwrap().clear();
+    }
+}
 
 struct NullCallback;
 impl GitSubprocessCallback for NullCallback {
@@ -24,85 +586,830 @@ impl GitSubprocessCallback for NullCallback {
     fn progress(&mut self, _p: &git::GitProgress) -> std::io::Result<()> {
         Ok(())
     }
-    fn local_sideband(
-        &mut self,
-        _m: &[u8],
-        _t: Option<git::GitSidebandLineTerminator>,
-    ) -> std::io::Result<()> {
+    fn local_sideband(&mut self, _m: &[u8], _t: Option<git::GitSidebandLineTerminator>) -> std::io::Result<()> {
         Ok(())
     }
-    fn remote_sideband(
-        &mut self,
-        _m: &[u8],
-        _t: Option<git::GitSidebandLineTerminator>,
-    ) -> std::io::Result<()> {
+    fn remote_sideband(&mut self, _m: &[u8], _t: Option<git::GitSidebandLineTerminator>) -> std::io::Result<()> {
         Ok(())
     }
 }
 
+// ---------------------------------------------------------------------------------------
+// Executing one action with the real code
+// ---------------------------------------------------------------------------------------
+
+#[derive(Default, Debug)]
+struct PushReport {
+    /// bookmark index -> (expected, new) that was sent
+    sent: Vec<(usize, Option<Cm>, Option<Cm>)>,
+    /// Ok: names reported in `pushed` / `rejected` / `remote_rejected`; Err: the error text
+    pushed: Vec<usize>,
+    rejected: Vec<usize>,
+    remote_rejected: Vec<usize>,
+    unexported: Vec<usize>,
+    error: Option<String>,
+}
+
+enum Done {
+    Plain,
+    Push(PushReport),
+}
+
+fn name_index_of_ref(full: &str) -> Option<usize> {
+    let n = full.strip_prefix("refs/heads/")?;
+    NAMES.iter().position(|x| *x == n)
+}
+
+fn execute(w: &mut World, a: &Act) -> Result<Done, (String, String)> {
+    match a {
+        Act::Remote(n, c) => {
+            // the other clone: harness-owned, a failure is a machinery failure
+            let g = testutils::git::open(remote_dir(&w.dir));
+            let full = format!("refs/heads/{}", NAMES[*n]);
+            if *c == 0 {
+                g.find_reference(&full)
+                    .unwrap_or_else(|e| machinery_failure(&format!("remote delete of a missing ref: {e}")))
+                    .delete()
+                    .unwrap_or_else(|e| machinery_failure(&format!("remote delete: {e}")));
+            } else {
+                g.reference(
+                    full.as_str(),
+                    oid(&w.ids[*c as usize]),
+                    gix::refs::transaction::PreviousValue::Any,
+                    "other clone",
+                )
+                .unwrap_or_else(|e| machinery_failure(&format!("remote set: {e}")));
+            }
+            Ok(Done::Plain)
+        }
+        Act::Local(n, c) => {
+            let repo = w.repo.clone();
+            let ids = w.ids.clone();
+            let r = vcommon::catch(move || -> Result<Arc<ReadonlyRepo>, String> {
+                let mut tx = repo.start_transaction();
+                let mr = tx.repo_mut();
+                let name: &RefName = NAMES[*n].as_ref();
+                if *c == 0 {
+                    mr.set_local_bookmark_target(name, RefTarget::absent());
+                } else {
+                    let id = &ids[*c as usize];
+                    let commit = mr.store().get_commit(id).map_err(|e| format!("{e}"))?;
+                    mr.add_head(&commit).block_on().map_err(|e| format!("{e}"))?;
+                    mr.set_local_bookmark_target(name, RefTarget::normal(id.clone()));
+                }
+                tx.commit("jj bookmark").block_on().map_err(|e| format!("{e}"))
+            });
+            match r {
+                Ok(Ok(repo)) => {
+                    w.repo = repo;
+                    Ok(Done::Plain)
+                }
+                Ok(Err(e)) => machinery_failure(&format!("jj bookmark edit failed: {e}")),
+                Err(p) => machinery_failure(&format!("jj bookmark edit panicked: {p}")),
+            }
+        }
+        Act::Fetch => {
+            let repo = w.repo.clone();
+            let shim = w.shim.clone();
+            let r = vcommon::catch(move || -> Result<Arc<ReadonlyRepo>, String> {
+                let mut tx = repo.start_transaction();
+                let options = import_options();
+                let subprocess = GitSubprocessOptions { executable_path: shim, environment: HashMap::new() };
+                {
+                    let mut fetcher =
+                        GitFetch::new(tx.repo_mut(), subprocess, &options).map_err(|e| format!("GitFetch::new: {e}"))?;
+                    let expr = GitFetchRefExpression { bookmark: StringExpression::all(), tag: StringExpression::none() };
+                    let specs = git::expand_fetch_refspecs("origin".as_ref(), expr)
+                        .map_err(|e| format!("expand_fetch_refspecs: {e}"))?;
+                    fetcher
+                        .fetch("origin".as_ref(), specs, &mut NullCallback, None)
+                        .map_err(|e| format!("fetch: {e}"))?;
+                    fetcher.import_refs().block_on().map_err(|e| format!("import_refs: {e}"))?;
+                }
+                tx.repo_mut().rebase_descendants().block_on().map_err(|e| format!("rebase_descendants: {e}"))?;
+                tx.commit("fetch").block_on().map_err(|e| format!("commit: {e}"))
+            });
+            match r {
+                Ok(Ok(repo)) => {
+                    w.repo = repo;
+                    Ok(Done::Plain)
+                }
+                Ok(Err(e)) => Err(("fetch/error".into(), e)),
+                Err(p) => Err(("fetch/panic".into(), p)),
+            }
+        }
+        Act::Push(sel) => {
+            let mut bookmarks: Vec<(RefNameBuf, Diff<Option<CommitId>>)> = vec![];
+            let mut rep = PushReport::default();
+            for n in 0..NAMES.len() {
+                if *sel != ALL && *sel != n {
+                    continue;
+                }
+                if let Some(d) = w.push_update(n) {
+                    rep.sent.push((
+                        n,
+                        d.before.as_ref().map(|id| w.label_of(id)),
+                        d.after.as_ref().map(|id| w.label_of(id)),
+                    ));
+                    bookmarks.push((NAMES[n].into(), d));
+                }
+            }
+            if bookmarks.is_empty() {
+                // not enabled in this state
+                return Err(("push/not-enabled".into(), String::new()));
+            }
+            let repo = w.repo.clone();
+            let subprocess = GitSubprocessOptions::from_settings(&w.settings)
+                .unwrap_or_else(|e| machinery_failure(&format!("subprocess options: {e}")));
+            let r = vcommon::catch(move || -> Result<(Arc<ReadonlyRepo>, Result<git::GitPushStats, String>), String> {
+                let mut tx = repo.start_transaction();
+                let targets = GitPushRefTargets { bookmarks, tags: vec![] };
+                let stats = git::push_refs(
+                    tx.repo_mut(),
+                    subprocess,
+                    "origin".as_ref(),
+                    &targets,
+                    &mut NullCallback,
+                    &GitPushOptions::default(),
+                )
+                .map_err(|e| format!("{e}"));
+                // like the CLI: the transaction is committed when the push call returned Ok
+                // (a failed command leaves no operation behind)
+                let repo2 = if stats.is_ok() {
+                    tx.commit("push").block_on().map_err(|e| format!("commit: {e}"))?
+                } else {
+                    drop(tx);
+                    repo.clone()
+                };
+                Ok((repo2, stats))
+            });
+            match r {
+                Ok(Ok((repo, stats))) => {
+                    w.repo = repo;
+                    match stats {
+                        Ok(s) => {
+                            rep.pushed = s.pushed.iter().filter_map(|r| name_index_of_ref(r.as_str())).collect();
+                            rep.rejected = s.rejected.iter().filter_map(|(r, _)| name_index_of_ref(r.as_str())).collect();
+                            rep.remote_rejected =
+                                s.remote_rejected.iter().filter_map(|(r, _)| name_index_of_ref(r.as_str())).collect();
+                            rep.unexported = s
+                                .unexported_bookmarks
+                                .iter()
+                                .filter_map(|(sym, _)| NAMES.iter().position(|x| *x == sym.name.as_str()))
+                                .collect();
+                        }
+                        Err(e) => rep.error = Some(e),
+                    }
+                    Ok(Done::Push(rep))
+                }
+                Ok(Err(e)) => Err(("push/commit-error".into(), e)),
+                Err(p) => Err(("push/panic".into(), p)),
+            }
+        }
+    }
+}
+
+// ---------------------------------------------------------------------------------------
+// Oracle
+// ---------------------------------------------------------------------------------------
+
+#[derive(Default)]
+struct Stats {
+    pushes: Counter,
+    refs_pushed_fresh: Counter,
+    fresh_create: Counter,
+    fresh_move: Counter,
+    fresh_move_non_ff: Counter,
+    fresh_delete: Counter,
+    refs_pushed_stale: Counter,
+    stale_remote_moved: Counter,
+    stale_remote_created: Counter,
+    stale_remote_deleted: Counter,
+    stale_rejected_by_lease: Counter,
+    stale_rejected_by_remote: Counter,
+    stale_whole_push_error: Counter,
+    stale_already_at_target: Counter,
+    stale_already_at_target_reported_pushed: Counter,
+    mixed_pushes: Counter,
+    mixed_fresh_ref_still_pushed: Counter,
+    stale_between_fetch_and_push: Counter,
+    push_errors: Mutex<BTreeMap<String, u64>>,
+    fetches: Counter,
+    fetch_made_conflict: Counter,
+    fetch_learned_c4: Counter,
+    record_differs_from_ghost_states: Counter,
+    nontrivial_states: Mutex<HashSet<u64>>,
+    all_states: Mutex<HashSet<u64>>,
+    samples: Mutex<Vec<Value>>,
+    started_from_snapshot: Counter,
+    started_from_template: Counter,
+    t_new_us: Counter,
+    t_exec_us: Counter,
+    t_obs_us: Counter,
+}
+
+struct Outcome {
+    key: String,
+    actions: Vec<Act>,
+    violations: Vec<(String, String)>,
+}
+
+fn record_str(o: &NameObs) -> String {
+    format!(
+        "@origin={}{} git_refs={} tracking-ref={}",
+        terms_str(&o.r),
+        if o.r_tracked { "" } else { "(untracked)" },
+        terms_str(&o.k),
+        terms_str(&[o.t])
+    )
+}
+
+fn check_push(
+    pre: &Obs,
+    post: &Obs,
+    ghost: &[Option<Cm>],
+    rep: &PushReport,
+    after_fetch: bool,
+    st: &Stats,
+    v: &mut Vec<(String, String)>,
+) {
+    st.pushes.inc();
+    if let Some(e) = &rep.error {
+        let short: String = e.lines().next().unwrap_or("").chars().take(80).collect();
+        *st.push_errors.lock().unwrap().entry(short).or_insert(0) += 1;
+    }
+    let sent: BTreeMap<usize, (Option<Cm>, Option<Cm>)> = rep.sent.iter().map(|(n, e, x)| (*n, (*e, *x))).collect();
+    let all_fresh = sent.keys().all(|n| pre.names[*n].a == ghost[*n]);
+    let any_fresh = sent.keys().any(|n| pre.names[*n].a == ghost[*n]);
+    if !all_fresh && any_fresh {
+        st.mixed_pushes.inc();
+    }
+    for (i, n) in NAMES.iter().enumerate() {
+        let (p, q, g) = (&pre.names[i], &post.names[i], ghost[i]);
+        if q.l != p.l {
+            v.push((
+                "C45/push/local-bookmark-changed".into(),
+                format!("push changed local bookmark {n}: {} -> {}", terms_str(&p.l), terms_str(&q.l)),
+            ));
+        }
+        let Some(&(expected, new)) = sent.get(&i) else {
+            if q.a != p.a || q.r != p.r || q.r_tracked != p.r_tracked || q.k != p.k || q.t != p.t {
+                v.push((
+                    "C45/push/unselected-bookmark-touched".into(),
+                    format!("bookmark {n} was not part of the push, but remote/record changed: {p:?} -> {q:?}"),
+                ));
+            }
+            continue;
+        };
+        let reported_pushed = rep.pushed.contains(&i) && !rep.unexported.contains(&i);
+        let fresh = p.a == g;
+        let record_unchanged = q.r == p.r && q.r_tracked == p.r_tracked && q.k == p.k && q.t == p.t;
+        let ctx_str = format!(
+            "bookmark {n}: jj last saw the remote at {}, sent expected={} new={}, remote actually at {}; outcome: \
+             {}; remote afterwards {}; record before [{}] after [{}]",
+            terms_str(&[g]),
+            terms_str(&[expected]),
+            terms_str(&[new]),
+            terms_str(&[p.a]),
+            if let Some(e) = &rep.error {
+                format!("push_refs failed: {}", e.lines().next().unwrap_or(""))
+            } else if rep.pushed.contains(&i) {
+                "reported pushed".into()
+            } else if rep.rejected.contains(&i) {
+                "reported rejected (lease)".into()
+            } else if rep.remote_rejected.contains(&i) {
+                "reported rejected by the remote".into()
+            } else {
+                "not mentioned in the result".into()
+            },
+            terms_str(&[q.a]),
+            record_str(p),
+            record_str(q)
+        );
+        if fresh {
+            st.refs_pushed_fresh.inc();
+            if reported_pushed {
+                if q.a != new {
+                    v.push(("C45/push/reported-pushed-but-remote-not-at-target".into(), ctx_str.clone()));
+                } else if q.r != vec![new] || (new.is_some() && !q.r_tracked) {
+                    v.push(("C45/push/record-not-updated-after-push".into(), ctx_str.clone()));
+                } else {
+                    match (g, new) {
+                        (None, _) => st.fresh_create.inc(),
+                        (_, None) => st.fresh_delete.inc(),
+                        (Some(o), Some(x)) => {
+                            st.fresh_move.inc();
+                            if !(o == 1 && (x == 2 || x == 4)) {
+                                st.fresh_move_non_ff.inc();
+                            }
+                        }
+                    }
+                    if !all_fresh {
+                        st.mixed_fresh_ref_still_pushed.inc();
+                    }
+                }
+            } else {
+                // not pushed: nothing may have changed ...
+                if q.a != p.a {
+                    v.push(("C45/push/remote-changed-but-not-reported-pushed".into(), ctx_str.clone()));
+                } else if !record_unchanged {
+                    v.push(("C45/push/record-changed-without-push".into(), ctx_str.clone()));
+                }
+                // ... and if every ref of this push was up to date, it had to succeed
+                if all_fresh {
+                    v.push(("C45/push/up-to-date-lease-rejected".into(), ctx_str.clone()));
+                }
+            }
+            continue;
+        }
+        // stale: the remote moved since jj last saw it
+        st.refs_pushed_stale.inc();
+        if after_fetch {
+            st.stale_between_fetch_and_push.inc();
+        }
+        match (g, p.a) {
+            (None, Some(_)) => st.stale_remote_created.inc(),
+            (Some(_), None) => st.stale_remote_deleted.inc(),
+            _ => st.stale_remote_moved.inc(),
+        }
+        if q.a != p.a {
+            v.push(("C45/push/unseen-remote-change-overwritten".into(), ctx_str.clone()));
+            continue;
+        }
+        if p.a == new {
+            st.stale_already_at_target.inc();
+            if reported_pushed {
+                st.stale_already_at_target_reported_pushed.inc();
+                if q.r != vec![new] {
+                    v.push(("C45/push/already-there-record-wrong".into(), ctx_str.clone()));
+                }
+            } else if !record_unchanged {
+                v.push(("C45/push/record-changed-after-rejection".into(), ctx_str.clone()));
+            }
+            continue;
+        }
+        if reported_pushed {
+            v.push(("C45/push/stale-push-reported-pushed".into(), ctx_str.clone()));
+        } else if !record_unchanged {
+            v.push(("C45/push/record-changed-after-rejection".into(), ctx_str.clone()));
+        } else if rep.error.is_some() {
+            st.stale_whole_push_error.inc();
+        } else if rep.rejected.contains(&i) {
+            st.stale_rejected_by_lease.inc();
+        } else if rep.remote_rejected.contains(&i) {
+            st.stale_rejected_by_remote.inc();
+        } else {
+            v.push(("C45/push/stale-ref-missing-from-result".into(), ctx_str.clone()));
+        }
+    }
+}
+
+fn update_ghost_after_push(pre: &Obs, post: &Obs, rep: &PushReport, ghost: &mut [Option<Cm>]) {
+    for (n, _e, new) in &rep.sent {
+        let (p, q) = (&pre.names[*n], &post.names[*n]);
+        let fresh = p.a == ghost[*n];
+        if rep.pushed.contains(n) && q.a == *new && (fresh || p.a == *new) {
+            // jj set (or confirmed) the remote position
+            ghost[*n] = *new;
+        }
+    }
+}
+
+fn name_key(o: &NameObs, g: Option<Cm>) -> String {
+    format!(
+        "l={} r={}{} k={} t={} a={} seen={}",
+        terms_str(&o.l),
+        terms_str(&o.r),
+        if o.r_tracked { "" } else { "?" },
+        terms_str(&o.k),
+        terms_str(&[o.t]),
+        terms_str(&[o.a]),
+        terms_str(&[g])
+    )
+}
+
+fn state_key(o: &Obs, ghost: &[Option<Cm>]) -> String {
+    let mut per: Vec<String> = (0..NAMES.len()).map(|i| name_key(&o.names[i], ghost[i])).collect();
+    per.sort();
+    format!("{} | vis={:05b} known={:05b}", per.join(" ; "), o.visible, o.known)
+}
+
+fn enabled(w: &World, o: &Obs) -> Vec<Act> {
+    let mut acts = vec![];
+    for n in 0..NAMES.len() {
+        for c in LOCAL_TARGETS {
+            if o.names[n].l != vec![opt(c)] {
+                acts.push(Act::Local(n, c));
+            }
+        }
+    }
+    for n in 0..NAMES.len() {
+        for c in REMOTE_TARGETS {
+            if o.names[n].a != opt(c) {
+                acts.push(Act::Remote(n, c));
+            }
+        }
+    }
+    acts.push(Act::Fetch);
+    let pushable: Vec<usize> = (0..NAMES.len()).filter(|n| w.push_update(*n).is_some()).collect();
+    for n in &pushable {
+        acts.push(Act::Push(*n));
+    }
+    if pushable.len() >= 2 {
+        acts.push(Act::Push(ALL));
+    }
+    acts
+}
+
+fn step(scratch: &Path, st: &Stats, snaps: Option<&Snaps>, keep: bool, history: &[Act]) -> Option<Outcome> {
+    let t0 = std::time::Instant::now();
+    let parent = match (snaps, history.split_last()) {
+        (Some(s), Some((_, init))) => s.get(init),
+        _ => None,
+    };
+    let mut violations: Vec<(String, String)> = vec![];
+    // true while the most recent fetch has not been followed by a push
+    let mut fetched_since_push;
+    let (mut w, mut obs, start) = match &parent {
+        Some(snap) => {
+            let mut w = World::from_copy(&snap.dir, scratch);
+            w.ghost = snap.ghost.clone();
+            fetched_since_push = snap.fetched_since_push;
+            st.started_from_snapshot.inc();
+            (w, snap.obs.clone(), history.len() - 1)
+        }
+        None => {
+            let w = World::new(scratch);
+            let obs = w.observe();
+            if obs.known & 0b11110 != 0b01110 {
+                machinery_failure("setup: jj should know c1..c3 and not c4");
+            }
+            fetched_since_push = false;
+            st.started_from_template.inc();
+            (w, obs, 0)
+        }
+    };
+    st.t_new_us.add(t0.elapsed().as_micros() as u64);
+    for (i, a) in history.iter().enumerate().skip(start) {
+        let last = i + 1 == history.len();
+        let pre = obs.clone();
+        let ghost_pre = w.ghost.clone();
+        let t0 = std::time::Instant::now();
+        let executed = execute(&mut w, a);
+        st.t_exec_us.add(t0.elapsed().as_micros() as u64);
+        match executed {
+            Err((clause, msg)) => {
+                if clause == "push/not-enabled" {
+                    return None;
+                }
+                if last {
+                    violations.push((format!("C45/{clause}"), format!("{} failed: {msg}", a.render())));
+                    return Some(Outcome { key: format!("!error {}", history_json(history)), actions: vec![], violations });
+                }
+                return None;
+            }
+            Ok(done) => {
+                let t0 = std::time::Instant::now();
+                obs = w.observe();
+                st.t_obs_us.add(t0.elapsed().as_micros() as u64);
+                for n in &obs.names {
+                    if [n.a, n.t].iter().any(|x| *x == Some(98) || *x == Some(99)) {
+                        machinery_failure("unexpected git ref target");
+                    }
+                }
+                let remote_changed = pre.names.iter().zip(&obs.names).any(|(p, q)| p.a != q.a);
+                match (a, done) {
+                    (Act::Push(_), Done::Push(rep)) => {
+                        if last {
+                            check_push(&pre, &obs, &ghost_pre, &rep, fetched_since_push, st, &mut violations);
+                        }
+                        let mut ghost = w.ghost.clone();
+                        update_ghost_after_push(&pre, &obs, &rep, &mut ghost);
+                        w.ghost = ghost;
+                        fetched_since_push = false;
+                    }
+                    (Act::Fetch, _) => {
+                        if last {
+                            st.fetches.inc();
+                            if remote_changed {
+                                violations.push(("C45/fetch/remote-changed".into(), "a fetch changed the bare remote".into()));
+                            }
+                            for (i, n) in NAMES.iter().enumerate() {
+                                let q = &obs.names[i];
+                                if q.r != vec![q.a] || (q.a.is_some() && !q.r_tracked) {
+                                    violations.push((
+                                        "C45/fetch/record-differs-from-remote".into(),
+                                        format!(
+                                            "after fetch the remote has {n} at {} but jj recorded {}{}",
+                                            terms_str(&[q.a]),
+                                            terms_str(&q.r),
+                                            if q.r_tracked { "" } else { " (untracked)" }
+                                        ),
+                                    ));
+                                }
+                                if q.l.len() > 1 && pre.names[i].l.len() == 1 {
+                                    st.fetch_made_conflict.inc();
+                                }
+                            }
+                            if obs.known & (1 << 4) != 0 && pre.known & (1 << 4) == 0 {
+                                st.fetch_learned_c4.inc();
+                            }
+                        }
+                        for i in 0..NAMES.len() {
+                            w.ghost[i] = obs.names[i].a;
+                        }
+                        fetched_since_push = true;
+                    }
+                    (Act::Local(..), _) => {
+                        if last && remote_changed {
+                            violations.push((
+                                "C45/local-edit/remote-changed".into(),
+                                "a local bookmark edit changed the bare remote".into(),
+                            ));
+                        }
+                    }
+                    _ => {}
+                }
+            }
+        }
+    }
+    let key = state_key(&obs, &w.ghost);
+    let actions = enabled(&w, &obs);
+    let mut diverged = false;
+    for i in 0..NAMES.len() {
+        if obs.names[i].r != vec![w.ghost[i]] {
+            diverged = true;
+        }
+    }
+    if diverged {
+        // jj's record differs from what jj last saw/set: only possible after a violation above
+        st.record_differs_from_ghost_states.inc();
+        if violations.is_empty() {
+            violations.push((
+                "C45/record/diverged-from-last-seen-position".into(),
+                format!("jj's record of the remote differs from the position it last saw or set: {key}"),
+            ));
+        }
+    }
+    let h = vcommon::fnv(key.as_bytes());
+    st.all_states.lock().unwrap().insert(h);
+    if obs.names.iter().zip(&w.ghost).any(|(o, g)| o.a != *g) {
+        st.nontrivial_states.lock().unwrap().insert(h);
+    }
+    {
+        let mut samples = st.samples.lock().unwrap();
+        if samples.len() < 6 && history.len() >= 3 && matches!(history.last(), Some(Act::Push(_))) {
+            samples.push(json!({"history": history.iter().map(|a| a.render()).collect::<Vec<_>>(), "state": key}));
+        }
+    }
+    if let (Some(snaps), true, true) = (snaps, keep, violations.is_empty()) {
+        w.keep = true;
+        snaps.insert(
+            history,
+            Snap { dir: w.dir.clone(), ghost: w.ghost.clone(), fetched_since_push, obs: obs.clone(), len: history.len() },
+        );
+    }
+    Some(Outcome { key, actions, violations })
+}
+
+// ---------------------------------------------------------------------------------------
+
 fn main() {
     let ctx = Ctx::from_args("C45", Level::ModelChecking);
-    let settings = testutils::user_settings();
-    let test_repo = TestRepo::init_with_backend_and_settings(TestRepoBackend::Git, &settings);
-    let remote_dir = ctx.scratch().join("remote.git");
-    let _remote = testutils::git::init_bare(&remote_dir);
-    let mut tx = test_repo.repo.start_transaction();
-    git::add_remote(
-        tx.repo_mut(),
-        "origin".as_ref(),
-        remote_dir.to_str().unwrap(),
-        None,
-    )
-    .unwrap();
-    tx.commit("add remote").block_on().unwrap();
-    let repo = test_repo.env.load_repo_at_head(&settings, test_repo.repo_path());
-    let mut tx = repo.start_transaction();
-    let c = testutils::write_random_commit(tx.repo_mut());
-    let targets = GitPushRefTargets {
-        bookmarks: vec![("b".into(), Diff::new(None, Some(c.id().clone())))],
-        tags: vec![],
+    vcommon::silence_panics();
+    testutils::hermetic_git();
+    let stats = Stats::default();
+    let scratch = ctx.scratch().to_path_buf();
+
+    if let Some((_sig, case)) = ctx.replay_case() {
+        let history: Vec<Act> = case["history"]
+            .as_array()
+            .unwrap_or_else(|| machinery_failure("replay: no history"))
+            .iter()
+            .map(|v| v.as_str().and_then(Act::parse).unwrap_or_else(|| machinery_failure("replay: bad action")))
+            .collect();
+        match step(&scratch, &stats, None, false, &history) {
+            None => machinery_failure("replay: history is not executable"),
+            Some(o) => {
+                println!("replayed {} actions; reached state: {}", history.len(), o.key);
+                println!("enabled there: {:?}", o.actions.iter().map(|a| a.render()).collect::<Vec<_>>());
+                for (sig, msg) in o.violations {
+                    ctx.violation(&sig, msg, history_json(&history));
+                }
+            }
+        }
+        ctx.finish(Coverage { evaluations: 1, ..Default::default() });
+    }
+
+    // determinism gate (also proves that push and fetch work with the installed git)
+    let gate: Vec<Act> = ["local:a=c1", "push:a", "remote:a=c4", "local:a=c2", "push:a", "fetch", "local:a=c3", "push:a"]
+        .iter()
+        .map(|s| Act::parse(s).unwrap())
+        .collect();
+    let g1 = step(&scratch, &Stats::default(), None, false, &gate).map(|o| (o.key, o.violations));
+    // second time incrementally, through kept snapshots: must give the same observation
+    let gate_snaps = Snaps::default();
+    let mut g2 = None;
+    for n in 0..=gate.len() {
+        g2 = step(&scratch, &Stats::default(), Some(&gate_snaps), true, &gate[..n]).map(|o| (o.key, o.violations));
+    }
+    gate_snaps.clear();
+    if g1.is_none() {
+        machinery_failure("determinism gate: the gate history is not executable (does git push/fetch work here?)");
+    }
+    if g1 != g2 {
+        machinery_failure(
+            "determinism gate: replaying a history from scratch and extending kept snapshots gave different observations",
+        );
+    }
+
+    // (start prefix, depth, restrict to bookmark a)
+    let plan: Vec<(Vec<&str>, usize, bool)> = if ctx.quick() {
+        vec![(vec![], 4, true), (vec!["local:a=c1", "local:b=c1", "push:all"], 3, false)]
+    } else {
+        vec![
+            (vec![], 7, true),
+            (vec![], 4, false),
+            (vec!["local:a=c1", "local:b=c1", "push:all"], 3, false),
+        ]
     };
-    let opts = GitSubprocessOptions::from_settings(&settings).unwrap();
-    let r = git::push_refs(
-        tx.repo_mut(),
-        opts.clone(),
-        "origin".as_ref(),
-        &targets,
-        &mut NullCallback,
-        &GitPushOptions::default(),
-    );
-    println!("push_refs: {r:?}");
-    let remote = testutils::git::open(&remote_dir);
-    println!(
-        "remote ref: {:?}",
-        remote
-            .try_find_reference("refs/heads/b")
-            .unwrap()
-            .map(|r| r.target().id().to_string())
-    );
-    println!(
-        "view: {:?}",
-        tx.repo()
-            .view()
-            .get_remote_bookmark(jj_lib::ref_name::RemoteRefSymbol {
-                name: "b".as_ref(),
-                remote: "origin".as_ref()
-            })
-    );
-    let import_options = GitImportOptions {
-        abandon_unreachable_commits: true,
-        record_synthetic_predecessors: true,
-        remote_auto_track_bookmarks: HashMap::new(),
+    let wall_budget = ctx.pick(45.0, 840.0);
+    let mut st = bfs::BfsStats::default();
+    let mut per_search: Vec<Value> = vec![];
+    let mut all_complete = true;
+    let snaps = Snaps::default();
+    for (prefix, depth, only_a) in &plan {
+        snaps.clear();
+        let prefix_acts: Vec<Act> = prefix.iter().map(|s| Act::parse(s).unwrap()).collect();
+        let cfg = bfs::BfsConfig {
+            max_depth: *depth,
+            max_states: 20_000_000,
+            max_wall_s: (wall_budget - ctx.elapsed_s()).max(1.0),
+        };
+        let one = bfs::search(
+            &cfg,
+            |h: &[Act]| {
+                let mut full = prefix_acts.clone();
+                full.extend_from_slice(h);
+                let keep = h.len() < *depth;
+                let o = step(&scratch, &stats, Some(&snaps), keep, &full)?;
+                for (sig, msg) in &o.violations {
+                    ctx.violation(sig, msg.clone(), history_json(&full));
+                }
+                let actions = o.actions.into_iter().filter(|a| !*only_a || !a.touches_second_name()).collect();
+                Some(bfs::StepResult { key: o.key, actions })
+            },
+            |a| a.label(),
+        );
+        let complete = !one.capped && one.max_depth_completed >= *depth;
+        all_complete &= complete;
+        per_search.push(json!({
+            "start_after": prefix,
+            "depth": depth,
+            "restricted_to_bookmark_a": only_a,
+            "states": one.states,
+            "transitions": one.transitions,
+            "max_depth_completed": one.max_depth_completed,
+            "capped": one.capped,
+            "invalid_histories": one.invalid,
+            "per_depth_new_states": one.per_depth_states,
+        }));
+        st.transitions += one.transitions;
+        st.invalid += one.invalid;
+        st.capped |= one.capped;
+        for (k, (n, m)) in one.per_action {
+            let e = st.per_action.entry(k).or_insert((0, 0));
+            e.0 += n;
+            e.1 += m;
+        }
+        for h in one.sample_histories {
+            if st.sample_histories.len() < 4 {
+                st.sample_histories.push(format!("after {prefix:?}: {h}"));
+            }
+        }
+    }
+    st.states = stats.all_states.lock().unwrap().len() as u64;
+
+    if ctx.violation_count() == 0 && all_complete {
+        for (label, (n, newstates)) in &st.per_action {
+            if *n > 0 && *newstates == 0 {
+                machinery_failure(&format!("vacuous alphabet: action {label} never reached a new state"));
+            }
+        }
+        for (name, c) in [
+            ("push creating a branch", &stats.fresh_create),
+            ("push moving a branch", &stats.fresh_move),
+            ("push deleting a branch", &stats.fresh_delete),
+            ("push against a branch moved by the other clone", &stats.stale_remote_moved),
+            ("push against a branch created by the other clone", &stats.stale_remote_created),
+            ("push against a branch deleted by the other clone", &stats.stale_remote_deleted),
+            ("remote update between fetch and push", &stats.stale_between_fetch_and_push),
+            ("push with one up-to-date and one stale bookmark", &stats.mixed_pushes),
+        ] {
+            if c.get() == 0 {
+                machinery_failure(&format!("vacuous: no transition exercised '{name}'"));
+            }
+        }
+    }
+
+    let plan_text = plan
+        .iter()
+        .map(|(p, d, x)| format!("<= {d} actions{} after {p:?}", if *x { " (bookmark a only)" } else { "" }))
+        .collect::<Vec<_>>()
+        .join("; ");
+    let nontrivial = stats.nontrivial_states.lock().unwrap().len() as u64;
+    let mut samples: Vec<Value> = std::mem::take(&mut *stats.samples.lock().unwrap());
+    samples.extend(st.sample_histories.iter().map(|s| json!(s)));
+    let errors = stats.push_errors.lock().unwrap().clone();
+    let cov = Coverage {
+        evaluations: st.transitions,
+        distinct_nontrivial: nontrivial,
+        rule: format!(
+            "every history of {plan_text} out of: jj sets/deletes local bookmark a|b (c1,c2,c3), another clone \
+             sets/deletes branch a|b in the bare remote (c1,c2,c3 and its own commit c4), fetch (GitFetch + import, \
+             auto-tracking), push:<name> / push:all (push_refs with the updates classify_ref_push_action yields); \
+             c1<c2, c1<c4, c3 unrelated; states merged on (local bookmark, name@origin + tracked flag, recorded git ref, \
+             actual refs/remotes/origin/<name>, actual remote branch, last-seen ghost) per name with a/b interchangeable, \
+             plus which commits are visible/known to jj; every history is executed once through the real git subprocess \
+             (its last action on a copy of the two repositories as its parent history left them; the start-up gate \
+             checks that this equals a full replay from the initial repositories); `states` = distinct canonical states over all searches; \
+             non-trivial = distinct reached states in which the remote branch differs from what jj last saw"
+        ),
+        samples,
+        exhaustive: all_complete,
+        states: Some(st.states),
+        transitions: Some(st.transitions),
+        traces_validated_against_impl: Some(st.transitions),
+        extra: [
+            ("searches".to_string(), json!(per_search)),
+            ("capped".to_string(), json!(st.capped)),
+            ("invalid_histories".to_string(), json!(st.invalid)),
+            ("per_action_transitions_and_new_states".to_string(), json!(st.per_action)),
+            (
+                "push_transitions".to_string(),
+                json!({
+                    "judged": stats.pushes.get(),
+                    "refs_sent_with_up_to_date_record": stats.refs_pushed_fresh.get(),
+                    "created": stats.fresh_create.get(),
+                    "moved": stats.fresh_move.get(),
+                    "of_which_not_fast_forward": stats.fresh_move_non_ff.get(),
+                    "deleted": stats.fresh_delete.get(),
+                    "refs_sent_with_stale_record": stats.refs_pushed_stale.get(),
+                    "stale_because_other_clone_moved": stats.stale_remote_moved.get(),
+                    "stale_because_other_clone_created": stats.stale_remote_created.get(),
+                    "stale_because_other_clone_deleted": stats.stale_remote_deleted.get(),
+                    "stale_update_landed_between_fetch_and_push": stats.stale_between_fetch_and_push.get(),
+                    "stale_rejected_lease": stats.stale_rejected_by_lease.get(),
+                    "stale_rejected_by_remote": stats.stale_rejected_by_remote.get(),
+                    "stale_whole_push_failed_with_error": stats.stale_whole_push_error.get(),
+                    "stale_but_remote_already_at_target": stats.stale_already_at_target.get(),
+                    "of_which_reported_pushed": stats.stale_already_at_target_reported_pushed.get(),
+                    "pushes_mixing_up_to_date_and_stale_refs": stats.mixed_pushes.get(),
+                    "up_to_date_ref_pushed_in_a_mixed_push": stats.mixed_fresh_ref_still_pushed.get(),
+                    "push_refs_errors_by_first_line": errors,
+                }),
+            ),
+            (
+                "fetch_transitions".to_string(),
+                json!({
+                    "judged": stats.fetches.get(),
+                    "made_a_local_bookmark_conflicted": stats.fetch_made_conflict.get(),
+                    "brought_in_c4": stats.fetch_learned_c4.get(),
+                }),
+            ),
+            ("states_where_record_differs_from_ghost".to_string(), json!(stats.record_differs_from_ghost_states.get())),
+            (
+                "summed_thread_wall_time_us".to_string(),
+                json!({"world_init": stats.t_new_us.get(), "replayed_actions": stats.t_exec_us.get(), "observations": stats.t_obs_us.get()}),
+            ),
+            (
+                "histories_started_from".to_string(),
+                json!({"kept_snapshot_of_the_parent_history": stats.started_from_snapshot.get(), "template_with_full_replay": stats.started_from_template.get()}),
+            ),
+            ("git_version".to_string(), json!(git_version())),
+        ]
+        .into_iter()
+        .collect(),
+        assumptions: vec![
+            "interleaving at command granularity: an update of the remote that lands inside one `git push` (between \
+             git's lease check and its ref write) is git's own atomicity and is not explored"
+                .into(),
+            "installed git 2.39.5: push runs unmodified; for fetch a shell shim removes the `--porcelain` word (git < \
+             2.41) and discards stdout, of which jj reads only rejected entries"
+                .into(),
+            "the remote already holds the objects of c1..c3 (side refs refs/keep/*), so the other clone can point a \
+             branch at them; bookmarks fetched from origin are auto-tracked; the CLI's own pre-push refusals \
+             (conflicted or untracked bookmarks) are modelled by not enabling the push"
+                .into(),
+        ],
     };
-    let mut fetcher = GitFetch::new(tx.repo_mut(), opts, &import_options).unwrap();
-    let expr = git::GitFetchRefExpression {
-        bookmark: jj_lib::str_util::StringExpression::all(),
-        tag: jj_lib::str_util::StringExpression::none(),
-    };
-    let specs = git::expand_fetch_refspecs("origin".as_ref(), expr).unwrap();
-    let r = fetcher.fetch("origin".as_ref(), specs, &mut NullCallback, None);
-    println!("fetch: {r:?}");
-    let r = fetcher.import_refs().block_on();
-    println!("import: {:?}", r.map(|s| s.changed_remote_bookmarks));
-    std::process::exit(0);
+    ctx.finish(cov);
+}
+
+fn git_version() -> String {
+    std::process::Command::new("git")
+        .arg("--version")
+        .output()
+        .map(|o| String::from_utf8_lossy(&o.stdout).trim().to_string())
+        .unwrap_or_else(|e| format!("unavailable: {e}"))
 }
